@@ -23,6 +23,12 @@ def pair_key(rng, lo=1, hi=8, p_reserved=0.2):
     return ident(rng, lo, hi)
 
 
+# strings built from the vocabulary of the format itself, all within what the format can express (no double quote, no
+# leading '{'; the array-element pool additionally drops everything holding a '}')
+FORMAT_WORDS = ['typedef', 'enum', 'struct', 'typedef struct', 'typedef enum', 'char', 'int', ';', 'x;', '};', '}', 'a}', 'x{',
+                'a{b}', 'a{{}}', ';;{{{}}', 'x{{{}}', 'a{ {{}}', 'b{{ }}', 'q{}', 'q{ }', 'T;', 'MYSTRUCT', 'symbols', 'a {{}} b',
+                '[3]', 'x[2]', '<3>', '\\{', 'end\\ x', '0x10', '1e', 'nan', '-', '+', '# typedef struct {', 'enum {A} T;']
+
 NUMKINDS = ['i2', 'i4', 'i8', 'f4', 'f8']
 
 
